@@ -1,48 +1,71 @@
 //go:build verif
 
-// Command zzprobe is a scratch probe (not part of any check): hostile RCONF arguments on a three-node cluster.
+// Command zzprobe is a scratch probe (not part of any check): stalled subscribers on two channels, publishers with quotas around the filling point.
 package main
 
 import (
 	"fmt"
+	"math/rand"
 	"os"
-	"strconv"
+	"strings"
+	"sync"
 	"time"
 
-	"rgverif/internal/cluster"
+	"rgverif/internal/procs"
 	"rgverif/internal/respc"
 )
 
 func main() {
-	for i, argv := range [][]string{{"rconf", "add", "4", "garbage"}, {"rconf", "add", "0", "http://127.0.0.1:1"}, {"rconf", "delete", "99"}, {"rconf", "update", "1", "x"}, {"rconf", "add", "4", ""}, {"rconf", "delete", "0"}} {
-		dir := "/dev/shm/zzprobe-dir" + strconv.Itoa(i)
-		os.RemoveAll(dir)
-		c, err := cluster.New(dir, 3, false, nil)
-		if err != nil {
-			panic(err)
+	dir := "/dev/shm/zzprobe-dir"
+	os.RemoveAll(dir)
+	defer os.RemoveAll(dir)
+	srv, err := procs.Start(procs.Opts{Dir: dir, Port: procs.FreePorts(1)[0], ShardNum: 8, Databases: 1})
+	if err != nil {
+		panic(err)
+	}
+	defer srv.Kill()
+	pad := strings.Repeat("x", 256*1024)
+	var wg sync.WaitGroup
+	var mu sync.Mutex
+	hung := 0
+	var keep []*respc.Client
+	for round := 0; round < 24; round++ {
+		s, _ := respc.Dial(srv.Addr, 10*time.Second)
+		keep = append(keep, s)
+		for i := 0; i < 2; i++ {
+			_ = s.Send(respc.Cmd("SUBSCRIBE", fmt.Sprintf("r%d-ch%d", round, i)))
+			_, _ = s.RecvTimeout(2 * time.Second)
 		}
-		if err := c.StartAll(); err != nil {
-			panic(err)
+		for p := 0; p < 2; p++ {
+			wg.Add(1)
+			go func(round, p int) {
+				defer wg.Done()
+				r := rand.New(rand.NewSource(int64(round*7 + p)))
+				c, _ := respc.Dial(srv.Addr, 15*time.Second)
+				defer c.Close()
+				quota := 1 + round + r.Intn(1)
+				if p == 1 {
+					quota = 2000
+				}
+				for i := 0; i < quota; i++ {
+					v, err := c.Do("PUBLISH", fmt.Sprintf("r%d-ch%d", round, p), pad)
+					if err == nil && v.Int == 0 {
+						return
+					}
+					if err != nil {
+						mu.Lock()
+						hung++
+						mu.Unlock()
+						fmt.Printf("round %d publisher %d message %d of %d: %v\n", round, p, i, quota, err)
+						return
+					}
+				}
+			}(round, p)
 		}
-		fmt.Println("writable", c.WaitAllWritable(90*time.Second))
-		a, _ := respc.Dial(c.Nodes[0].Addr(), 5*time.Second)
-		v, err := a.Do(argv...)
-		fmt.Println(argv, "->", v.String(), err)
-		time.Sleep(3 * time.Second)
-		fmt.Println("alive:", c.Alive(), "crash:", c.CrashLines())
-		for id := 1; id <= 3; id++ {
-			if cl, err := respc.Dial(c.Nodes[id-1].Addr(), 3*time.Second); err == nil {
-				cl.Timeout = 8 * time.Second
-				v, err := cl.Do("SET", "after", "1")
-				fmt.Println("  node", id, "SET ->", v.String(), err)
-				v, err = cl.Do("MEMBER", "LIST")
-				fmt.Println("  node", id, "MEMBER LIST ->", v.String(), err)
-				cl.Close()
-			} else {
-				fmt.Println("  node", id, "dial:", err)
-			}
-		}
-		c.Stop()
-		os.RemoveAll(dir)
+	}
+	wg.Wait()
+	fmt.Println("hung publishers:", hung)
+	for _, s := range keep {
+		s.Close()
 	}
 }
